@@ -325,11 +325,12 @@ struct SL
 
   // Buffers handed over with copy_memory_or_grant_access / taken back with copy_memory_or_deny_access (copy branch: mbox
   // cannot grant or deny access): every element the guest sees / the application receives is the element that was sent.
-  template<class T>
+  template<class TQ>
   static void buf_type(sbx_t& sb)
   {
+    using T = std::remove_cv_t<TQ>; // TQ may be const-qualified: a const buffer handed over with copy_memory_or_grant_access
     using G = guest_t<T>;
-    setadd("buffer_types", std::string(Abi::name) + ":" + tname<T>() + "->" + std::to_string(sizeof(G) * 8) + (std::is_signed_v<G> ? "s" : "u"));
+    setadd("buffer_types", std::string(Abi::name) + ":" + (std::is_const_v<TQ> ? "const " : "") + tname<T>() + "->" + std::to_string(sizeof(G) * 8) + (std::is_signed_v<G> ? "s" : "u"));
     auto L = lattice<T>();
     for (size_t k = 0; k < L.size(); k++) {
       T arr[3] = { L[k], L[(k + 7) % L.size()], L[L.size() - 1 - k] };
@@ -337,7 +338,8 @@ struct SL
       {
         g_abort_flag = 0;
         bool copied = false;
-        auto p = rlbox::copy_memory_or_grant_access(sb, arr, 3, false, copied);
+        TQ* src = arr;
+        auto p = rlbox::copy_memory_or_grant_access(sb, src, 3, false, copied);
         uint8_t* raw = (uint8_t*)p.UNSAFE_unverified();
         for (int i = 0; i < 3 && raw; i++) {
           i128 m = std::is_signed_v<T> ? (i128)arr[i] : (i128)(u128)arr[i];
@@ -346,15 +348,15 @@ struct SL
           i128 got = std::is_signed_v<G> ? (i128)g : (i128)(u128)g;
           n_eval++;
           if (m < 0 || m > 127) n_nontriv++;
-          std::string sg = std::string("C06 route=grant-copy abi=") + Abi::name + " elem=" + tname<T>();
+          std::string sg = std::string("C06 route=grant-copy abi=") + Abi::name + " elem=" + (std::is_const_v<TQ> ? "const " : "") + tname<T>();
           std::string kk = std::string("buf:") + Abi::name + ":" + tname<T>() + ":" + str(m);
           if (g_abort_flag) continue; // refused as a whole
           if (got != m) { viol(sg + (representable<G>(m) ? " kind=value-changed" : " kind=silent-wrap"), kk, "element " + std::to_string(i) + " sent " + str(m) + ", the guest's element holds " + str(got)); break; }
         }
         if (raw) sb.free_in_sandbox(p);
       }
-      // sandbox -> application
-      {
+      // sandbox -> application (the deny direction copies INTO the buffer type, so only for non-const elements)
+      if constexpr (!std::is_const_v<TQ>) {
         auto q = sb.template malloc_in_sandbox<long long>(4);
         uint8_t* raw = (uint8_t*)q.UNSAFE_unverified();
         i128 ms[3];
@@ -386,9 +388,8 @@ struct SL
     sbx_t sb;
     sb.create_sandbox(inst);
 #ifdef C06_BUF
-    buf_type<short>(sb);
-    buf_type<char16_t>(sb);
-    buf_type<char>(sb);
+    // one element type per build: the library may refuse a type for this ABI at compile time, which must not hide the others
+    buf_type<C06_BUF>(sb);
     sb.destroy_sandbox();
     return;
 #endif
